@@ -128,6 +128,14 @@ Theorem C19_update_conf_invariant : forall def user r,
   wfd def = true -> update_conf def user = Some r -> wfd r = true.
 Proof. exact update_conf_wf. Qed.
 
+(* update_conf NEVER RAISES on two dictionaries, whatever they hold: a dictionary given where the
+   existing value is a scalar, a list or None (or where there is none) is merged into an empty
+   dictionary and takes its place -- the schema then decides -- instead of ending in TypeError
+   (non-empty) or being silently dropped for the default (empty), as before the repair of
+   update_conf (finding empty_dict_value_replaced_by_default of C17). *)
+Theorem C19_update_conf_total : forall def user, exists r, update_conf def user = Some r.
+Proof. exact update_conf_total. Qed.
+
 (* SCALARS ONLY.  A dictionary accepted by a json-checker dictionary schema none of whose
    entries takes a dictionary (the boolean test above) holds scalars / lists only. *)
 Theorem C19_accepted_values_are_scalars : forall orc ks d,
@@ -351,6 +359,7 @@ Print Assumptions C19_classes_wf.
 Print Assumptions C19_confidence_wf.
 Print Assumptions C19_scalars_wf.
 Print Assumptions C19_update_conf_invariant.
+Print Assumptions C19_update_conf_total.
 Print Assumptions C19_accepted_values_are_scalars.
 Print Assumptions C19_indicator_rewrite_accepted.
 Print Assumptions C19_input_section_replays.
